@@ -23,6 +23,9 @@ type c16Case struct {
 	Secret   []byte `json:"secret"`
 	Reply    string `json:"reply"` // handshake stream-error unexpected malformed close truncated
 	Var      int    `json:"var"`
+	// Prior: earlier connections of the same Component, each with its own stream id: "ok:<id>" = authenticated, then
+	// the server closed the connection; "refused:<id>" = the server answered with a stream error
+	Prior []string `json:"prior,omitempty"`
 }
 
 var c16StreamErrors = []string{"not-authorized", "host-unknown", "conflict", "invalid-namespace", "policy-violation", "internal-server-error", "system-shutdown", "bad-format"}
@@ -54,6 +57,12 @@ func genC16(t *rapid.T) c16Case {
 	}
 	c.Reply = rapid.SampledFrom([]string{"handshake", "handshake", "handshake", "stream-error", "unexpected", "malformed", "close", "truncated"}).Draw(t, "reply")
 	c.Var = rapid.IntRange(0, 15).Draw(t, "var")
+	if rapid.IntRange(0, 3).Draw(t, "reconnect") == 0 {
+		k := rapid.IntRange(1, 2).Draw(t, "nprior")
+		for i := 0; i < k; i++ {
+			c.Prior = append(c.Prior, rapid.SampledFrom([]string{"ok", "ok", "refused"}).Draw(t, "priorKind")+":"+rapid.StringMatching(`[a-f0-9]{1,12}`).Draw(t, "priorID"))
+		}
+	}
 	return c
 }
 
@@ -66,6 +75,24 @@ func runC16(c c16Case) vh.Result {
 	}
 	obsc := make(chan obs, 1)
 	srv, err := peer.Listen(func(pc *peer.Conn) {
+		if pc.Index < len(c.Prior) {
+			kind, id, _ := strings.Cut(c.Prior[pc.Index], ":")
+			if ev := pc.ExpectOpen(10 * time.Second); ev.Kind != "open" {
+				return
+			}
+			pc.Send(fmt.Sprintf("<?xml version='1.0'?><stream:stream xmlns='jabber:component:accept' xmlns:stream='http://etherx.jabber.org/streams' from='comp.localhost' id='%s'>", id))
+			if ev := pc.NextElem(10 * time.Second); ev.Kind != "elem" {
+				return
+			}
+			if kind == "ok" {
+				pc.Send("<handshake/>")
+				time.Sleep(5 * time.Millisecond)
+			} else {
+				pc.Send("<stream:error><not-authorized xmlns='urn:ietf:params:xml:ns:xmpp-streams'/></stream:error></stream:stream>")
+			}
+			pc.GracefulClose(time.Second)
+			return
+		}
 		var o obs
 		defer func() { obsc <- o }()
 		ev := pc.ExpectOpen(10 * time.Second)
@@ -136,6 +163,25 @@ func runC16(c c16Case) vh.Result {
 		return res
 	}
 	comp.SetHandler(rec.onEvent)
+	for i, pr := range c.Prior {
+		res.Label("reconnection")
+		kind, _, _ := strings.Cut(pr, ":")
+		err := comp.Connect()
+		if kind == "ok" {
+			if err != nil {
+				res.Fail("harness-prior", "prior connection %d (%s) failed: %v", i, pr, err)
+				return res
+			}
+			// the loss of that connection has been noticed
+			if !waitFor(5*time.Second, func() bool { return xmpp.VerifState(&comp.EventManager) != xmpp.StateSessionEstablished }) {
+				res.Fail("harness-prior", "prior connection %d: its end was not noticed", i)
+				return res
+			}
+		} else if err == nil {
+			res.Fail("harness-prior", "prior connection %d (%s) was refused but Connect returned nil", i, pr)
+			return res
+		}
+	}
 	t0 := time.Now()
 	cerr := comp.Connect()
 	el := time.Since(t0)
@@ -219,7 +265,7 @@ func isASCII(s string) bool {
 
 var c16 = vh.Define(&vh.Def[c16Case]{
 	Property: "C16", Name: "component",
-	Rule: "stream ids over attribute-legal text (empty, uuid-like, entities, quotes, non-ASCII, astral, leading/trailing space, control white space sent as character references, all XML-legal text), secrets as arbitrary bytes, server reply drawn from <handshake/> (3 forms), every stream error condition (8; with the stream closed, or kept open and followed by a stanza), unexpected elements (8, incl. a handshake in the wrong namespace), malformed XML (4), truncated, closed; a real Component connects to the scripted peer; oracle: handshake text == lower-case hex SHA-1(id || secret) computed by the harness; Connect nil, state SessionEstablished and the following stanza routed iff the reply was <handshake/>; otherwise error, state not established, nothing routed; non-trivial = id or secret needs escaping / is non-ASCII, or the reply is not <handshake/>",
+	Rule: "stream ids over attribute-legal text (empty, uuid-like, entities, quotes, non-ASCII, astral, leading/trailing space, control white space sent as character references, all XML-legal text), secrets as arbitrary bytes, server reply drawn from <handshake/> (3 forms), every stream error condition (8; with the stream closed, or kept open and followed by a stanza), unexpected elements (8, incl. a handshake in the wrong namespace), malformed XML (4), truncated, closed; a real Component connects to the scripted peer, in a quarter of the cases after 1-2 earlier connections of the same Component (authenticated and lost, or refused), each with its own stream id; oracle: handshake text == lower-case hex SHA-1(id || secret) computed by the harness; Connect nil, state SessionEstablished and the following stanza routed iff the reply was <handshake/>; otherwise error, state not established, nothing routed; non-trivial = id or secret needs escaping / is non-ASCII, or the reply is not <handshake/>",
 	Quick: 2000, Thorough: 24000, Journal: true,
 	Gen: genC16, Run: runC16,
 })
